@@ -15,6 +15,7 @@ import (
 	"fmt"
 	"math/big"
 
+	"github.com/nspcc-dev/neo-go/pkg/smartcontract/scparser"
 	"github.com/nspcc-dev/neo-go/pkg/util"
 	"github.com/nspcc-dev/neo-go/pkg/vm"
 	"github.com/nspcc-dev/neo-go/pkg/vm/opcode"
@@ -50,6 +51,20 @@ type c12Obs struct {
 	EverCyc  bool      `json:"ever_cyclic"`
 	MaxDepth int       `json:"max_depth"`
 	MaxRefs  int       `json:"max_refs"`
+	Static   bool      `json:"static_ok"` // scparser.IsScriptCorrect(script, nil) == nil
+}
+
+// c12Boundaries: instruction offsets of a linear decoding from offset 0 (nil if some instruction does not decode)
+func c12Boundaries(script []byte) map[int]bool {
+	b := map[int]bool{}
+	ctx := scparser.NewContext(script, 0)
+	for ctx.NextIP() < len(script) {
+		if _, _, err := ctx.Next(); err != nil {
+			return nil
+		}
+		b[ctx.IP()] = true
+	}
+	return b
 }
 
 // c12Exec steps the real VM through the script with all direct checks on.
@@ -57,6 +72,18 @@ func c12Exec(co *caseOut, kind string, in c12Input) (c12Obs, bool) {
 	script := in.script()
 	var obs c12Obs
 	bad := ""
+	var bounds map[int]bool
+	if p := catch(func() { obs.Static = scparser.IsScriptCorrect(script, nil) == nil }); p != "" {
+		co.violation(kind, "scparser.IsScriptCorrect panicked: "+p, in, nil)
+		return obs, false
+	}
+	if obs.Static {
+		bounds = c12Boundaries(script)
+		if bounds == nil {
+			co.violation(kind, "script passes IsScriptCorrect but does not decode linearly", in, nil)
+			return obs, false
+		}
+	}
 	v := c13NewVM(in.Base, in.Limit)
 	check := func(where string) {
 		if bad != "" {
@@ -88,6 +115,9 @@ func c12Exec(co *caseOut, kind string, in c12Input) (c12Obs, bool) {
 	v.SetOnExecHook(func(_ util.Uint160, off int, op opcode.Opcode) {
 		if len(obs.Refs) < c12TraceMax {
 			obs.Refs = append(obs.Refs, v.VerifRefs())
+		}
+		if obs.Static && bad == "" && off != len(script) && !bounds[off] {
+			bad = fmt.Sprintf("script passes the static check but executes offset %d, which is not an instruction boundary", off)
 		}
 		check(fmt.Sprintf("before instruction #%d at offset %d (%s)", obs.Res.Steps, off, op))
 		obs.Res.Steps++
@@ -143,8 +173,11 @@ func c12Run(co *caseOut, kind, tag string, in c12Input) {
 	if obs.EverCyc {
 		out += "+cyclic"
 	}
-	term := fmt.Sprintf("CTrace %s %d %d %d%%positive %s %s", coqBytes(script), in.Base, in.Limit*10000, obs.Res.Steps+16,
-		coqList(refs), obs.Res.coq())
+	term := fmt.Sprintf("CTrace %s %d %d %d%%positive %s %s %s", coqBytes(script), in.Base, in.Limit*10000, obs.Res.Steps+16,
+		coqList(refs), obs.Res.coq(), coqBool(obs.Static))
+	if obs.Static {
+		out += "+static"
+	}
 	impl := obs
 	if len(impl.Res.Stack) > 300 {
 		impl.Res.Stack = impl.Res.Stack[:300] + "..."
@@ -590,6 +623,83 @@ func c12Deep(r *rng, steps int) [][]byte {
 	return g.ops
 }
 
+// c12StaticProg: random instructions whose jump/call/try/pointer operands are then patched to instruction boundaries
+func c12StaticProg(r *rng, all []opcode.Opcode) []byte {
+	var ins [][]byte
+	for k := 2 + r.intn(14); k > 0; k-- {
+		a := &c13Asm{}
+		if r.chance(40) {
+			c13RandInstr(a, r, []opcode.Opcode{opcode.JMP, opcode.JMPL, opcode.JMPIF, opcode.JMPIFNOTL, opcode.JMPEQ, opcode.JMPLEL, opcode.CALL, opcode.CALLL,
+				opcode.PUSHA, opcode.TRY, opcode.TRYL, opcode.ENDTRY, opcode.ENDTRYL, opcode.CALLA, opcode.ENDFINALLY, opcode.THROW, opcode.RET})
+		} else if r.chance(50) {
+			a.op(pick(r, []opcode.Opcode{opcode.PUSH0, opcode.PUSH1, opcode.PUSH2, opcode.DUP, opcode.DROP, opcode.NOP, opcode.NEWARRAY0, opcode.DEC}))
+		} else {
+			c13RandInstr(a, r, all)
+		}
+		ins = append(ins, a.b)
+	}
+	offs := []int{}
+	n := 0
+	for _, x := range ins {
+		offs = append(offs, n)
+		n += len(x)
+	}
+	offs = append(offs, n)
+	rel := func(from int, long bool) []byte {
+		for try := 0; try < 50; try++ {
+			d := pick(r, offs) - from
+			if long {
+				return []byte{byte(d), byte(d >> 8), byte(d >> 16), byte(d >> 24)}
+			}
+			if d >= -128 && d <= 127 {
+				return []byte{byte(d)}
+			}
+		}
+		return []byte{0}
+	}
+	for i, x := range ins {
+		op := opcode.Opcode(x[0])
+		switch {
+		case op == opcode.TRY && len(x) == 3:
+			copy(x[1:], rel(offs[i], false))
+			copy(x[2:], rel(offs[i], false))
+		case op == opcode.TRYL && len(x) == 9:
+			copy(x[1:], rel(offs[i], true))
+			copy(x[5:], rel(offs[i], true))
+		case (op == opcode.PUSHA || op == opcode.CALLL || op == opcode.ENDTRYL || (op >= opcode.JMP && op <= opcode.JMPLEL && (op-opcode.JMP)%2 == 1)) && len(x) == 5:
+			copy(x[1:], rel(offs[i], true))
+		case (op >= opcode.JMP && op <= opcode.CALL || op == opcode.ENDTRY) && len(x) == 2:
+			copy(x[1:], rel(offs[i], false))
+		}
+	}
+	// half of the programs get exactly one defect: one jump-like operand moved off its boundary by one
+	if r.chance(50) {
+		var cand [][2]int // instruction index, operand byte index
+		for i, x := range ins {
+			op := opcode.Opcode(x[0])
+			switch {
+			case op == opcode.TRY && len(x) == 3:
+				cand = append(cand, [2]int{i, 1}, [2]int{i, 2})
+			case op == opcode.TRYL && len(x) == 9:
+				cand = append(cand, [2]int{i, 1}, [2]int{i, 5})
+			case len(x) == 5 && (op == opcode.PUSHA || op == opcode.CALLL || op == opcode.ENDTRYL || (op >= opcode.JMP && op <= opcode.JMPLEL)):
+				cand = append(cand, [2]int{i, 1})
+			case len(x) == 2 && (op >= opcode.JMP && op <= opcode.CALL || op == opcode.ENDTRY):
+				cand = append(cand, [2]int{i, 1})
+			}
+		}
+		if len(cand) > 0 {
+			c := pick(r, cand)
+			ins[c[0]][c[1]]++
+		}
+	}
+	var b []byte
+	for _, x := range ins {
+		b = append(b, x...)
+	}
+	return b
+}
+
 func c12HexOps(ops [][]byte) []string {
 	out := make([]string, len(ops))
 	for i, o := range ops {
@@ -626,6 +736,10 @@ func runC12(args []string) error {
 	r := newRng(cf.seed)
 	n := cf.n
 	var keep [][][]byte
+	// every VM limit at limit-1, limit, limit+1 (deterministic)
+	for _, b := range c13Boundaries() {
+		c12Run(co, "limits", b.tag, c12Input{Script: hx(b.script), Base: b.base, Limit: b.limit})
+	}
 	// deep programs
 	for i := 0; i < n; i++ {
 		ops := c12Deep(r, 10+r.intn(70))
@@ -656,6 +770,12 @@ func runC12(args []string) error {
 		}
 		base, limit := c13Bases(r, true)
 		c12Run(co, "bytes", "random", c12Input{Script: hx(b), Base: base, Limit: limit})
+	}
+	// programs built to pass the static check: random instructions, every jump operand pointing at a boundary
+	for i := 0; i < n/2; i++ {
+		b := c12StaticProg(r, all)
+		base, limit := c13Bases(r, true)
+		c12Run(co, "bytes", "staticgen", c12Input{Script: hx(b), Base: base, Limit: limit})
 	}
 	// mutated deep programs: byte flips, truncation, instruction deletion/duplication
 	for i := 0; i < n/2 && len(keep) > 0; i++ {
